@@ -1,7 +1,7 @@
 """C12 - untrusted input never escapes as a non-HTTP error (realised as transport corruption).
 
 One run: a valid request for one target (request accessors | body/json/form/stream | FileResponse |
-Router | Subpaths | Hosts | Files | Pages | a composed site) is serialised to HTTP/1.1 wire bytes,
+Router | Subpaths | Hosts | Files | Pages) is serialised to HTTP/1.1 wire bytes,
 1..3 faults (truncate / bit flip / drop / duplicate / swap / dictionary splice, positions biased by
 field) corrupt it, a tolerant front-end (sim/transport.py: what real ASGI / WSGI servers accept) turns
 the result into scope + receive() script or environ + wsgi.input, and the target runs on baize.
@@ -119,7 +119,7 @@ class C12(Prop):
     id = "C12"
     level = "exploration"
     rule = ("one run = one valid request for one target (request accessors | body/json/form/stream | FileResponse | Router | Subpaths | "
-            "Hosts | Files | Pages | composed site) on one interface, serialised to HTTP/1.1 wire bytes, corrupted by 1..3 faults "
+            "Hosts | Files | Pages) on one interface, serialised to HTTP/1.1 wire bytes, corrupted by 1..3 faults "
             "(truncate, bit flip, drop / duplicate / swap a span, dictionary splice; field chosen first, then a position in it), parsed "
             "by a tolerant server front-end and, unless the front-end refuses it, run on baize with seeded body chunking / short reads; "
             "non-trivial = at least one fault changed the wire; distinct = distinct SHA-1 of the fault coordinates plus the "
@@ -139,7 +139,8 @@ class C12(Prop):
                            "os.stat metadata overlay of SimFS (contents are real files)"]}
     hard_probes = ("splice", "bitflip", "drop", "dup", "swap", "truncate", "frontend_rejected", "frontend_accepted", "iface_asgi", "iface_wsgi",
                    "outcome_value", "outcome_response", "outcome_http_4xx", "outcome_disconnect", "body_shorter_than_declared",
-                   "field_path", "field_query", "field_header", "field_body", "field_part", "fault_free_run") + tuple("target_" + n for _, n in TARGETS)
+                   "field_path", "field_query", "field_header", "field_body", "field_part", "fault_free_run",
+                   "corrupted_at_source_content_length_recomputed") + tuple("target_" + n for _, n in TARGETS)
     quick_runs = 600000
     thorough_runs = 6000000
     batch = 1000
@@ -275,11 +276,20 @@ class C12(Prop):
             if target == "files" and t.draw(4) == 0:
                 rel = "404app"          # the Files instance that has a handle_404 application
         wire, fields = tr.serialise(method, path, query, hs, body, spans)
+        at_source = False
         if t.draw(16) == 0:
             cwire, faults = wire, []            # fault-free run: the valid request itself
         else:
             cwire, faults = tr.corrupt(t, wire, fields, WEIGHTS[wkey])
-        return {"iface": iface, "target": target, "ops": ops, "file": rel, "bkind": bkind, "valid_len": len(wire), "faults": faults, "wire": cwire}
+            # where the corruption happens: in flight (Content-Length stays as sent and may now disagree with the
+            # body) or at the source (a hostile / broken client frames its own bytes: Content-Length is recomputed)
+            if body and t.draw(2):
+                fixed = tr.reframe(cwire)
+                at_source = fixed is not None
+                if at_source:
+                    cwire = fixed
+        return {"iface": iface, "target": target, "ops": ops, "file": rel, "bkind": bkind, "valid_len": len(wire), "faults": faults,
+                "at_source": at_source, "wire": cwire}
 
     def describe(self, plan, variant=None):
         d = dict(plan)
@@ -328,6 +338,18 @@ class C12(Prop):
         iface = plan["iface"]
         if exc is None:
             return "ok"
+        # a cached failed access (ASGI cached_property future) re-raises the very same exception object, then
+        # without its original traceback: it is the same outcome as before, not a new one
+        seen = ctx.notes.setdefault("seen_exc", [])
+        for old, res in seen:
+            if old is exc:
+                ctx.ev("out", entry, "repeat", res)
+                return res
+        res = self._judge_new(ctx, plan, entry, exc, iface, HTTPException, ClientDisconnect)
+        seen.append((exc, res))
+        return res
+
+    def _judge_new(self, ctx, plan, entry, exc, iface, HTTPException, ClientDisconnect):
         if isinstance(exc, HTTPException):
             sc = exc.status_code
             if isinstance(sc, int) and not isinstance(sc, bool) and 400 <= sc < 500:
@@ -383,6 +405,9 @@ class C12(Prop):
                 ctx.probe("field_" + ("header" if fld.startswith("h:") else fld))
         if not plan["faults"]:
             ctx.probe("fault_free_run")
+        if plan["at_source"]:
+            ctx.probe("corrupted_at_source_content_length_recomputed")
+            ctx.sch("reframed")
         try:
             fe = tr.frontend(plan["wire"], iface)
         except tr.Rejected as r:
